@@ -239,6 +239,23 @@ func registerReflect(e *Engine) {
 		*cell = zero(t)
 		return th.mkRValue(&rvalue{t: types.NewPointer(t), v: cell})
 	})
+	reg("reflect.Zero", func(th *Thread, fn *ssa.Function, a []Value) Value {
+		t := rtypeOfValue(th, a[0])
+		return th.mkRValue(&rvalue{t: t, v: zero(t)})
+	})
+	reg("(reflect.Value).IsNil", func(th *Thread, fn *ssa.Function, a []Value) Value {
+		rv := th.rvalueOf(a[0])
+		switch rv.t.Underlying().(type) {
+		case *types.Pointer:
+			return mkBool(rv.v.(*Value) == nil)
+		case *types.Interface:
+			return mkBool(rv.v.(Iface).t == nil)
+		case *types.Slice:
+			return mkBool(rv.v.(Slice).a == nil)
+		}
+		th.st.abort("reflect.Value.IsNil of %v not modelled", rv.t)
+		return nil
+	})
 	reg("(reflect.Value).Interface", func(th *Thread, fn *ssa.Function, a []Value) Value {
 		rv := th.rvalueOf(a[0])
 		if rv.t == nil {
